@@ -1,0 +1,22 @@
+//go:build verif
+
+package ecs
+
+// Contracts for filter.go. The oracle is docs/content/queries: a filter matches an archetype
+// mask iff the mask contains every required component and, if exclusions are set, none of the
+// excluded ones.
+
+//@ spec func filterMatches(f filter, m bitMask) bool :=
+//@      (forall i uint8 :: mhas(f.mask, i) ==> mhas(m, i))
+//@   && (f.hasWithout ==> (forall i uint8 :: !(mhas(f.without, i) && mhas(m, i))))
+
+//@ func (*filter).matches
+//@   serves C03 C05 C06
+//@   requires mask != nil
+//@   ensures  spec: result == filterMatches(*f, *mask)
+//@   modifies nothing
+
+//@ func (filter).Exclusive
+//@   serves C03
+//@   ensures  mask: result.mask == f.mask && result.cache == f.cache && result.hasWithout
+//@   ensures  exclusive: forall i uint8 :: mhas(result.without, i) == !mhas(f.mask, i)
